@@ -8,7 +8,7 @@ Case lines (shared with harness/c06/c06.c and harness/mudlib/c06/main.c):
   assign d s | free s | aset s i t | aget d s i | mset s k t | mdel s k
   push s | pushr s | pop | popto d                                  (unit mode only)
   newobj o | setvar o i s | getvar d o i | oref d o | dest o | cleanup | drop o
-  call k o st s t | rmcall k | sweep | sent k o s t | rmsent k
+  call k o st s t | rmcall k | sweep | sent k o s t | rmsent k | inp o s t | input
   err s t | efun f s t                                              (lpc mode only)
 
 Output, one line per operation:  `ok r:<ref of every visible cell, x = freed> st:<counters>` | `skip` |
@@ -57,6 +57,8 @@ def parseOp (line : String) : Option Op :=
   | ["rmsent", a] => do some (.rmsent (← n? a))
   | ["err", a, b] => do some (.err (← n? a) (← n? b))
   | ["efun", a, b, c] => do some (.efun (← n? a) (← n? b) (← n? c))
+  | ["inp", a, b, c] => do some (.inp (← n? a) (← n? b) (← n? c))
+  | ["input"] => some .input
   | ["clones", a] => do some (.clones (← n? a))
   | ["unclone", a] => do some (.unclone (← n? a))
   | _ => none
@@ -136,6 +138,12 @@ def pFollow (p : PSt) (before after : Int) : Option PSt :=
   if after > before then (if p.pfreed then none else some (pInc p (after - before).toNat))
   else pDec p (before - after).toNat
 
+/-- references held on the function-name strings of the harness object ("cb", "cbs<k>", "act"): one per pending
+    call_out (pending_call_t.function.s) and one per add_action sentence (sentence_t.function.s) -/
+def nameRefs (s : St) : Nat :=
+  ((List.range nCalls).filter (fun k => !isNumRoot s (rCall k))).length +
+  ((List.range nSents).filter (fun k => !isNumRoot s (rSent k))).length
+
 def renderState (noAllocd : Bool) (s : St) (p : PSt) : String :=
   let st := { s.stats with objects := s.stats.objects + p.anon }
   let pr := if p.pfreed then "x" else toString p.pref
@@ -143,12 +151,14 @@ def renderState (noAllocd : Bool) (s : St) (p : PSt) : String :=
   let sts := if p.pfreed then
       s!"{st.numArrays},{st.arrayBytes},{st.numMappings},{st.mapNodes},-,-,{st.objects}"
     else renderStats noAllocd st
-  s!"ok r:{renderRefs s.heap} st:{sts} p:{pr}"
+  let fr := if p.pfreed then "-" else toString (nameRefs s)
+  s!"ok r:{renderRefs s.heap} st:{sts} p:{pr} f:{fr}"
 
 def applies : Op → Bool
   | .newobj _ => true
   | .sweep => true
   | .clones _ => true
+  | .input => true
   | _ => false
 
 def runLines (lpc : Bool) : Bool → St → PSt → List Op → List String → List String
